@@ -128,6 +128,13 @@ func (s *Server) Run(ctx context.Context) error {
 
 func (s *Server) handleConnection(ctx context.Context, conn net.Conn) {
 	defer conn.Close()
+	// A panic while serving one client must not take the whole server (and
+	// every other client's connection) down: drop this connection only.
+	defer func() {
+		if r := recover(); r != nil {
+			s.logger.Printf("connection panic: %v", r)
+		}
+	}()
 
 	metrics.ConnectionsTotal.Inc()
 	metrics.ConnectionsActive.Inc()
